@@ -46,6 +46,10 @@ def raw_mutants(r, base, quick):
         k = r.choice([1, 1, 2, 16])
         out.append(("delete", [pos, k], d[:pos] + d[pos + k:]))
     lens = range(n) if (not quick) else sorted(set([0, 1, 4, 5, 6] + [r.randrange(n) for _ in range(18)] + [n - 1, n - 2]))
+    if quick and "body" in regions:
+        # ... and always the structural places: end of the header, and exactly at / one byte either side of every chunk boundary
+        seams = [p.header_len + c["start"] for c in p.chunks] + [p.header_len, p.lead_len]
+        lens = sorted(set(list(lens) + [x + d_ for x in seams for d_ in (-1, 0, 1) if 0 <= x + d_ < n]))
     for L in lens:
         if 0 <= L < n:
             out.append(("truncate", [L], d[:L]))
